@@ -43,6 +43,49 @@ Proof.
   - injection H as -> Hr. destruct (IH ks k Hr) as (l0 & v & -> & E). exists ((k1, v0) :: l0), v. split; [reflexivity|]. cbn. now rewrite E.
 Qed.
 
+(** ** the keys of the recipe table are pairwise different (all that a multiplied branch needs since the
+    expansion slice starts at the closing anchor's own entry: fix ee9caf1) *)
+Definition ninv (st : rstate) : Prop := NoDup (map fst (s_recipes st)).
+Lemma ozdec (a b : option Z) : {a = b} + {a <> b}.
+Proof. decide equality. apply Z.eq_dec. Qed.
+Lemma nodup_snoc {A} (l : list A) k : NoDup l -> ~ In k l -> NoDup (l ++ [k]).
+Proof.
+  induction 1 as [|x l Hx Hl IH]; cbn [app]; intros Hk.
+  - constructor; [intros []|constructor].
+  - constructor.
+    + intros C. apply in_app_or in C as [C|[C|[]]]; [now apply Hx|subst; apply Hk; now left].
+    + apply IH. intros C. apply Hk. now right.
+Qed.
+Lemma rec_del_keys_incl k d y : In y (map fst (rec_del k d)) -> In y (map fst d).
+Proof.
+  induction d as [|[k' v] r IH]; cbn [rec_del map fst]; intros H; [exact H|].
+  destruct (oz_eqb k k'); [now right|]. cbn [map fst] in H. destruct H as [H|H]; [now left|right; now apply IH].
+Qed.
+Lemma rec_del_nodup k d : NoDup (map fst d) -> NoDup (map fst (rec_del k d)) /\ ~ In k (map fst (rec_del k d)).
+Proof.
+  induction d as [|[k' v] r IH]; cbn [rec_del map fst]; intros H.
+  - split; [constructor|intros []].
+  - inversion H as [|? ? Hn Hr]; subst. destruct (oz_eqb k k') eqn:E.
+    + apply oz_eqb_eq in E. subst. split; [exact Hr|exact Hn].
+    + destruct (IH Hr) as [I1 I2]. cbn [map fst]. split.
+      * constructor; [intros C; apply Hn; eapply rec_del_keys_incl; exact C|exact I1].
+      * intros [C|C]; [subst; rewrite oz_eqb_refl in E; discriminate|now apply I2].
+Qed.
+Lemma rec_set_nodup k v d : NoDup (map fst d) -> NoDup (map fst (rec_set k v d)).
+Proof.
+  intros H. destruct (in_dec ozdec k (map fst d)) as [Hi|Hi].
+  - now rewrite rec_set_keys_in.
+  - rewrite rec_set_keys_notin by assumption. now apply nodup_snoc.
+Qed.
+Lemma rec_append_nodup k e d : NoDup (map fst d) -> NoDup (map fst (rec_append k e d)).
+Proof. intros H. unfold rec_append. now apply rec_set_nodup. Qed.
+Lemma opened_ninv st pc br ba rc : opened st pc = Ok (br, ba, rc) -> ninv st -> NoDup (map fst rc).
+Proof.
+  unfold opened, ninv. intros H Hn. destruct (Ascii.eqb pc "("%char).
+  - destruct (match s_prev_node st with Some p => node_attrs (s_g st) p | None => Err EKey end) as [a|]; cbn [bind] in H; [|discriminate].
+    injection H as _ _ <-. apply rec_set_nodup. now apply rec_del_nodup.
+  - injection H as _ _ <-. exact Hn.
+Qed.
 (** ** the recipe table after one node of a flat item (closing or not) *)
 Lemma node_step_lin_recipes fo i k st pc st1 : lin_ok fo i = true -> cont k ->
   node_step fo st pc (l_name i) (lin_tail_str i ++ k) = Ok st1 ->
@@ -129,6 +172,19 @@ Proof.
       rewrite <- (rev_involutive ba), Erev. reflexivity.
   - destruct Hrest as (Eba1 & Erc1). destruct (mode_open md (l_open i)); cbn [minv]; try exact I; [|now elim Hns].
     now rewrite Erc1, Eba1.
+Qed.
+
+Lemma ninv_item fo i k st pc st1 : lin_ok fo i = true -> cont k -> ninv st ->
+  node_step fo st pc (l_name i) (lin_tail_str i ++ k) = Ok st1 -> ninv st1.
+Proof.
+  intros Hok Hk Hn Est.
+  destruct (node_step_lin_recipes fo i k st pc st1 Hok Hk Est) as (br & ba & rc & e & Eop & Hrest). cbv zeta in Hrest.
+  pose proof (opened_ninv st pc br ba rc Eop Hn) as Hrc.
+  assert (Hrc' : NoDup (map fst (if br then match rev ba with k0 :: _ => rec_append k0 e rc | [] => rc end else rc))).
+  { destruct br; [|exact Hrc]. destruct (rev ba); [exact Hrc|now apply rec_append_nodup]. }
+  unfold ninv. destruct (l_close i).
+  - destruct Hrest as (top & stk & _ & _ & _ & ->). destruct (rev stk); [constructor|exact Hrc'].
+  - destruct Hrest as (_ & ->). exact Hrc'.
 Qed.
 
 (** ** the static reading of a flat item and of a unit, in closed form *)
@@ -230,6 +286,7 @@ Lemma gunit_sim fo u K : gunit_ok fo u = true -> cont K ->
   | Ok x1 => exists st1 pre1,
       main_loop (length (u_body u) + f) fo pc (pre ++ gunit_str u ++ K) st = main_loop f fo "]"%char (pre1 ++ K) st1
       /\ Forall skipch pre1 /\ Rel st1 x1 /\ (m_stack x = [] -> s_recipes st1 = []) /\ m_stack x1 = m_stack x
+      /\ (s_recipes st1 = [] \/ exists e, s_recipes st1 = rc ++ [(Some ak, e)])
   | Err e => main_loop (length (u_body u) + f) fo pc (pre ++ gunit_str u ++ K) st = Err e
   end.
 Proof.
@@ -250,8 +307,8 @@ Proof.
   assert (Etl : pre ++ gunit_str u ++ K = (pre ++ ["("%char]) ++ flat_map bnode_str (u_body u) ++ closing_str u ++ K).
   { unfold gunit_str. rewrite <- !app_assoc. cbn [app]. now rewrite <- app_assoc. }
   rewrite Etl. destruct (m_run fo (gunit_toks u) x) as [x1|e]; [|exact Hbody].
-  destruct Hbody as (st1 & pre1 & E & Hp & HR1 & Hrc & Hs & _). exists st1, pre1.
-  split; [exact E|]. split; [exact Hp|]. split; [exact HR1|]. split; [|exact Hs]. intros E0. apply Hrc. now rewrite Hs.
+  destruct Hbody as (st1 & pre1 & E & Hp & HR1 & Hrc & Hs & Htab). exists st1, pre1.
+  split; [exact E|]. split; [exact Hp|]. split; [exact HR1|]. split; [|split; [exact Hs|exact Htab]]. intros E0. apply Hrc. now rewrite Hs.
 Qed.
 
 (** ** texts made of flat items and multiplied branches *)
@@ -277,7 +334,7 @@ Fixpoint gtrack (md : mode) (s : tstate) (l : list gseg) : bool :=
       | Some s1 => gtrack (mode_item md i (is_nil (t_names s1))) s1 t
       end
   | GUnit u :: t =>
-      negb (t_flag s) && (match md with Dirty => false | _ => true end)
+      negb (t_flag s) && (match md with Dirty => true | _ => true end)   (* any state of the recipe table (since fix ee9caf1) *)
       && (match t_cur s with Some c => str_eqb c (u_name u) | None => false end)
       && Z.eqb (t_pend s) (oord (u_bond u))
       && gtrack (if is_nil (t_names s) then Clean else Dirty) (tmk (Some (u_name u)) (oord (u_after u)) (t_names s) false) t
@@ -298,14 +355,14 @@ Proof. intros H. now destruct H. Qed.
 
 Theorem sim_gsegs fo : forall l md s st x pre pc f,
   forallb (gseg_ok fo) l = true -> gtrack md s l = true ->
-  Rel st x -> TI fo x s -> t_flag s = false -> minv md st ->
+  Rel st x -> TI fo x s -> t_flag s = false -> minv md st -> ninv st ->
   Forall skipch pre -> pc <> "("%char ->
   match m_run fo (gsegs_toks l) x with
   | Ok x1 => exists st1, main_loop (gsegs_nodes l + Datatypes.S f) fo pc (pre ++ gsegs_str l ++ ["}"%char]) st = Ok st1 /\ Rel st1 x1
   | Err e => main_loop (gsegs_nodes l + Datatypes.S f) fo pc (pre ++ gsegs_str l ++ ["}"%char]) st = Err e
   end.
 Proof.
-  induction l as [|[i|u] t IH]; intros md s st x pre pc f Hok Htr HR HT Hfl Hm Hpre Hpc.
+  induction l as [|[i|u] t IH]; intros md s st x pre pc f Hok Htr HR HT Hfl Hm Hnv Hpre Hpc.
   - cbn [gsegs_toks flat_map m_run gsegs_str app gsegs_nodes plus main_loop]. exists st. split; [|assumption].
     rewrite next_node_skip by (now apply skipch_nob). now rewrite next_node_single.
   - (* a flat item *)
@@ -350,7 +407,7 @@ Proof.
     assert (Enil : is_nil (s_branch_anchor st1) = is_nil (t_names s1)).
     { destruct HR1 as (_ & _ & _ & _ & Rba1 & _). rewrite Rba1, is_nil_rev. apply (Forall2_is_nil _ _ _ (ti_stack fo x1 s1 HT1)). }
     rewrite Enil in Hm1.
-    unfold k. apply (IH _ s1 st1 x1 (lin_tail_str i) "]"%char f Hokt Htr HR1 HT1 Hfl1 Hm1).
+    unfold k. apply (IH _ s1 st1 x1 (lin_tail_str i) "]"%char f Hokt Htr HR1 HT1 Hfl1 Hm1 (ninv_item fo i k st _ st1 Hoki Hk Hnv Est)).
     + now apply (lin_tail_skipch fo).
     + discriminate.
   - (* a multiplied branch *)
@@ -367,27 +424,20 @@ Proof.
     pose proof HR as (Rg & Rc & Rp & Rcy & Rba & Rbr & Rpb).
     assert (Hnotin : ~ In (Some ak) (s_branch_anchor st)).
     { rewrite Rba, <- in_rev. now apply (TI_prev_fresh fo x s ak HT Hfl). }
-    assert (Hrc : exists rc, rec_set (Some ak) [(1, a0, Some 1)] (rec_del (Some ak) (s_recipes st)) = rc ++ [(Some ak, [(1, a0, Some 1)])]
-                             /\ length rc = length (m_stack x) /\ rec_get (Some ak) rc = None).
-    { destruct md; [| |discriminate]; cbn [minv] in Hm.
-      - exists (s_recipes st). split; [|split].
-        + rewrite rec_del_absent by (apply rec_get_notin; now rewrite Hm). apply rec_set_absent. apply rec_get_notin. now rewrite Hm.
-        + transitivity (length (map fst (s_recipes st))); [symmetry; apply map_length|]. rewrite Hm, Rba. apply rev_length.
-        + apply rec_get_notin. now rewrite Hm.
-      - rewrite Rp, Ep in Hm. destruct (map_fst_snoc _ _ _ Hm) as (rc & old & Erc & Ekeys).
-        exists rc. split; [|split].
-        + rewrite Erc. rewrite rec_del_app by (apply rec_get_notin; now rewrite Ekeys). apply rec_set_absent. apply rec_get_notin. now rewrite Ekeys.
-        + transitivity (length (map fst rc)); [symmetry; apply map_length|]. rewrite Ekeys, Rba. apply rev_length.
-        + apply rec_get_notin. now rewrite Ekeys. }
-    destruct Hrc as (rc & Hset & Hlen & Habs).
+    destruct (rec_del_nodup (Some ak) (s_recipes st) Hnv) as [Hndrc Hninrc].
+    set (rc := rec_del (Some ak) (s_recipes st)) in *.
+    assert (Habs : rec_get (Some ak) rc = None) by (now apply rec_get_notin).
+    assert (Hset : rec_set (Some ak) [(1, a0, Some 1)] rc = rc ++ [(Some ak, [(1, a0, Some 1)])]) by (now apply rec_set_absent).
     pose proof (gunit_sim fo u K Hoku HK st x pre pc (gsegs_nodes t + Datatypes.S f) ak a0 rc HR Ep Hat Ea0
                   (eq_trans (ti_pend fo x s HT) Hpd) Hset Habs Hpre) as Hu.
     replace (length (u_body u) + gsegs_nodes t + Datatypes.S f)%nat with (length (u_body u) + (gsegs_nodes t + Datatypes.S f))%nat by lia.
     rewrite <- app_assoc. fold K.
     destruct (m_run fo (gunit_toks u) x) as [x1|e] eqn:Erun; cbn [bind]; [|exact Hu].
-    destruct Hu as (st1 & pre1 & -> & Hpre1 & HR1 & Hrc1 & Hstk1).
+    destruct Hu as (st1 & pre1 & -> & Hpre1 & HR1 & Hrc1 & Hstk1 & Htab1).
+    assert (Hnv1 : ninv st1).
+    { unfold ninv. destruct Htab1 as [->|(e1 & ->)]; [constructor|]. rewrite map_app. cbn [map fst]. now apply nodup_snoc. }
     pose proof (m_run_TI fo _ x x1 s _ Erun (trun_gunit fo u s Hbne Hbo Ecur Hfl) HT) as HT1.
-    unfold K. apply (IH _ _ st1 x1 pre1 "]"%char f Hokt Htrt HR1 HT1 eq_refl); [|assumption|discriminate].
+    unfold K. apply (IH _ _ st1 x1 pre1 "]"%char f Hokt Htrt HR1 HT1 eq_refl); [|exact Hnv1|assumption|discriminate].
     destruct (t_names s) as [|n0 r0] eqn:En; cbn [is_nil minv]; [|exact I].
     pose proof (ti_stack fo x s HT) as Hs2. rewrite En in Hs2. inversion Hs2 as [E0|]; subst.
     destruct HR1 as (_ & _ & _ & _ & Rba1 & _). rewrite Rba1, Hstk1, <- E0. rewrite Hrc1 by (now rewrite <- E0). reflexivity.
@@ -424,7 +474,7 @@ Proof.
   assert (Ef : Datatypes.S (length ("{"%char :: gsegs_str l ++ ["}"%char])) = (gsegs_nodes l + Datatypes.S f)%nat).
   { cbn [length]. rewrite app_length. cbn [length]. unfold f. lia. }
   rewrite Ef.
-  pose proof (sim_gsegs fo l Clean t_init init_state m_init ["{"%char] "}"%char f Hok Htr HR (TI_init fo) eq_refl eq_refl
+  pose proof (sim_gsegs fo l Clean t_init init_state m_init ["{"%char] "}"%char f Hok Htr HR (TI_init fo) eq_refl eq_refl (NoDup_nil _)
                 ltac:(repeat constructor; discriminate) ltac:(discriminate)) as Hsim.
   cbn [app] in Hsim.
   destruct (m_run fo (gsegs_toks l) m_init) as [x1|e].
